@@ -37,6 +37,20 @@ func C05(c *Ctx) int {
 		}
 	}
 	gen.DirectBranch = -1
+	// sentinels of the open findings F6b / F6c
+	ps = append(ps, gen.OpenFindingSentinels()...)
+	{
+		// the random program on which F6b was first seen (C01, seed 1, program 57), generated without steering
+		p := gen.Random("c01_1_57", 1057, gen.Features{Xor: true, And: true, Or: true, Loop: true, CondFlow: true, MaxDepth: 4, MaxSize: 7, MaxBranch: 3, NoSteer: true})
+		p.Tags = append(p.Tags, "sentinel")
+		ps = append(ps, p)
+	}
+	// a branch of the inclusive fork forks again (parallel block / task with two outgoing flows)
+	for _, inner := range []string{"and", "task"} {
+		for _, d := range []bool{true, false} {
+			ps = append(ps, gen.OrWithInnerFork(inner, d))
+		}
+	}
 	capN := 0
 	if c.Quick() {
 		capN = 16
